@@ -31,35 +31,40 @@ def showBalances (l : Ledger) : String :=
     let tag := if t.1 == 0 then "A" else if t.1 == 1 then "C" else if t.1 == 2 then "T" else "P"
     s!"{tag}:{t.2.1}:{t.2.2}")
 
-/-- `kind:sat:claimableFrom:contestedFrom` (the csv comes from the closure configuration) -/
-def rawItemOf (s : String) : Option Item :=
+/-- `kind:sat:claimableFrom:contestedFrom:hashId` (the csv comes from the closure configuration; `hashId` = an id of the
+    HTLC's payment hash, equal ids = equal hashes, 0 for the balance output) -/
+def rawItemOf (s : String) : Option (Item × Nat) :=
   match splitOnChar s ':' with
-  | [k, v, f, c] => (kindOf k).map fun kind =>
-      { kind := kind, sat := nat! v, claimableFrom := nat! f, contestedFrom := nat! c, csv := none }
+  | [k, v, f, c, hid] => (kindOf k).map fun kind =>
+      ({ kind := kind, sat := nat! v, claimableFrom := nat! f, contestedFrom := nat! c, csv := none }, nat! hid)
   | _ => none
 
 /-- balances, then the value handed out as SpendableOutputs so far -/
 def showLedger (l : Ledger) : String := s!"{showBalances l} | {spendableTotal l}"
 
 /-- ops:  close <height> <holderClose 0|1> <holder our_to_self_delay> <counterparty our_to_self_delay> <item>…
-                                      → balances (sorted) `|` spendable so far          (Model/CloseCfg.lean `closeWith`)
+                                      → balances (sorted) `|` spendable so far          (Model/CloseCfg.lean `hclose`)
           claim <idx> <height> <net>  | peer <idx> <height> | block <height> [<scenario tag>]   → the same
+          preimage <hashId> [<tag>]   → the same      (`HLedger.provide`: a preimage learned after the commitment confirmed)
           totals                      → `<balances owned> <spendable> <fees> <lost> <entitlement>` -/
 def c07close : Drv where
-  σ := Ledger
-  init := { best := 0, entries := [] }
-  step := fun l ws =>
+  σ := HLedger
+  init := { cfg := default, ledger := { best := 0, entries := [] }, hashes := [] }
+  step := fun hl ws =>
+    let viaOp := fun (o : Op) => let hl' := hl.step (.op o); (hl', showLedger hl'.ledger)
     match ws with
     | "close" :: h :: hc :: hs :: cs :: items =>
       match items.mapM rawItemOf with
-      | some is => let l' := closeWith { holderClose := hc == "1", holderSelected := nat! hs, counterpartySelected := nat! cs } (nat! h) is; (l', showLedger l')
-      | none => (l, "bad-op")
-    | ["claim", i, h, net] => let l' := step l (.claim (nat! i) (nat! h) (nat! net)); (l', showLedger l')
-    | ["peer", i, h] => let l' := step l (.peerClaim (nat! i) (nat! h)); (l', showLedger l')
-    | ["block", h] => let l' := step l (.block (nat! h)); (l', showLedger l')
-    | ["block", h, _tag] => let l' := step l (.block (nat! h)); (l', showLedger l')
-    | ["totals"] => (l, s!"{balanceTotal l} {spendableTotal l} {feesTotal l} {lostTotal l} {entitlement l}")
-    | _ => (l, "bad-op")
+      | some is => let hl' := hclose { holderClose := hc == "1", holderSelected := nat! hs, counterpartySelected := nat! cs } (nat! h) is; (hl', showLedger hl'.ledger)
+      | none => (hl, "bad-op")
+    | ["claim", i, h, net] => viaOp (.claim (nat! i) (nat! h) (nat! net))
+    | ["peer", i, h] => viaOp (.peerClaim (nat! i) (nat! h))
+    | ["block", h] => viaOp (.block (nat! h))
+    | ["block", h, _tag] => viaOp (.block (nat! h))
+    | ["preimage", hid] => let hl' := hl.step (.provide (nat! hid)); (hl', showLedger hl'.ledger)
+    | ["preimage", hid, _tag] => let hl' := hl.step (.provide (nat! hid)); (hl', showLedger hl'.ledger)
+    | ["totals"] => let l := hl.ledger; (hl, s!"{balanceTotal l} {spendableTotal l} {feesTotal l} {lostTotal l} {entitlement l}")
+    | _ => (hl, "bad-op")
 
 /-! ### c07fee: target feerates / fee-bump trajectories (Generated/Package.lean `computePackageFeerate`,
     `computePackageOutput`; Model/OnchainClaims.lean `extTargets`, `ownFeerates`) -/
